@@ -300,6 +300,9 @@ func GetAttr(v Value, attr Value, args ...Value) (Value, error) {
 		}
 		retval = res[0]
 	}
+	if !retval.CanInterface() {
+		return nil, fmt.Errorf("getattr: attribute \"%s\" on \"%v\" is not exported", attr, v)
+	}
 	return retval.Interface(), nil
 }
 
